@@ -25,6 +25,14 @@ theorem normIdx_lt {len : Nat} {i : Int} {k : Nat} (h : normIdx len i = some k) 
   unfold normIdx at h
   split at h <;> split at h <;> simp at h <;> omega
 
+theorem take_one_drop (l : List Nat) (k : Nat) (hk : k < l.length) : (l.drop k).take 1 = [l[k]] := by
+  rw [List.drop_eq_getElem_cons hk]; rfl
+
+theorem setParents_children (st : TState) (us : List Nat) (p : Option Nat) :
+    (setParents st us p).children = st.children := rfl
+
+theorem setChildren_parent (st : TState) (s : Nat) (l : List Nat) : (setChildren st s l).parent = st.parent := rfl
+
 /-- generic re-wiring step on a three-way split of the child list: orphan `B`, store `A ++ N ++ C`, adopt `N` -/
 theorem rewire3 (st : TState) (s : Nat) (A B C N : List Nat) (h : Inv st) (hs : s < st.n)
     (hl : st.children s = A ++ (B ++ C))
